@@ -137,6 +137,16 @@ def run_case(n, prog, seq, env, acc):
     acc.outcome("ok:" + ",".join(seq))
 
 
+def swap_alphabet(n, env):
+    """Focused alphabet for swap compression: swaps that overlap in every way + one blocker per kind."""
+    sw = [((0, 1), (1, 0)), ((1, 2), (2, 1)), ((2, 3), (3, 2)), ((3, 4), (4, 3)), ((0, 4), (4, 0)),
+          ((1, 2), (2, 3), (3, 1)), ((2, 4), (4, 2)), ((0, 1), (1, 2), (2, 0))]
+    ops = [("sw", s_) for s_ in sw if max(max(p_) for p_ in s_) < n]
+    ops += [("bs", 0, 1, env.R2, "Rx", 0), ("ps", n - 1, env.PH[0], 0), ("loss", 2, env.L[1]),
+            ("uni", 2, 1, False), ("add", "bs2", n - 2, True), ("bar", None)]
+    return ops
+
+
 def run(tier, seed):
     env = Env(seed)
     n = 4
@@ -168,12 +178,34 @@ def run(tier, seed):
         return acc
 
     acc = kernel.pmap(shard_fn, kernel.interleave(alpha, kernel.NPROC * 4))
+    # ---- stage 2: swap compression needs several swaps separated by blockers: deeper programs over a
+    # focused alphabet (5 modes), rewrites that involve compression
+    n2 = 5
+    alpha2 = swap_alphabet(n2, env)
+    d2 = 4 if tier == "quick" else 5
+    seqs2c = [("compress",), ("compress", "compress"), ("unpack", "compress"), ("compress", "remove_nonadj"),
+              ("copy", "compress")]
+
+    def shard2(firsts):
+        a = kernel.Acc()
+        for prog in kernel.programs(alpha2, d2, first=firsts):
+            nsw = sum(1 for o in prog if o[0] == "sw")
+            if nsw < 2 or (tier == "quick" and len(prog) == d2 and nsw < 3):
+                continue
+            for seq in (seqs2c[:1] + seqs2c[2:3] if tier == "quick" else seqs2c):
+                a.tick("executions"); a.tick("transitions", len(seq)); a.tick("stage2_cases")
+                run_case(n2, prog, seq, env, a)
+        return a
+
+    acc.merge(kernel.pmap(shard2, kernel.interleave(alpha2, kernel.NPROC * 2)))
     meta = {
         "rule": "every program of length <= depth over the rich alphabet (heralded/plain/grouped/lossy sub-circuits at "
                 "every placement, reversed and non-adjacent beam splitters in both conventions, loss, 3-cycles, unitary "
                 "blocks grouped or not, barriers, parent heralds, Parameters on bs/ps/loss) x every sequence of rewrites "
                 "{unpack_groups, compress_mode_swaps, remove_non_adjacent_bs, copy, copy(freeze)} up to the length "
-                "bound; after every step U_full/heralds/input size equal the untouched twin, structural "
+                "bound; stage 2: every program of length <= 0 over a focused swap alphabet (8 overlapping swap "
+                "dictionaries + one blocker of each kind, 5 modes) with >= 2 swaps x 5 compression sequences; after "
+                "every step U_full/heralds/input size equal the untouched twin, structural "
                 "post-conditions hold, and editing any produced object leaves all others' full fingerprints unchanged. "
                 "distinct_nontrivial = distinct (U_full, heralds, rewrite sequence) with >= 2 applied components.",
         "exhaustive": True,
